@@ -5,7 +5,10 @@ C09 — A self-administered timelock controller cannot be driven around its own 
 Property theorems only. The model (OZ/Model/TimelockController.lean) mirrors
 examples/timelock-controller/src/contract.rs after the `fix:` commit (`__check_auth` rejects a
 descriptor vector whose length differs from the number of authorized contexts), on top of the
-C08 timelock model and a plain-set model of the access-control roles.
+C08 timelock model and of C06's access-control model (OZ/Model/Access.lean): the controller's whole
+exposed `AccessControl` surface is covered — `grant_role` / `revoke_role` by the admin and by holders
+of a role's admin role, `set_role_admin`, `renounce_role`, `transfer_admin_role`,
+`accept_admin_transfer`, `renounce_admin`.
 
 All statements are universally quantified over every controller state, every set of
 authorizations (`auth`), every signature payload attached for the controller's own address
@@ -79,8 +82,8 @@ example : (checkAuth
 /-! ### admin-only entry points on a self-administered controller -/
 
 /-- On a controller whose admin is the contract itself, an accepted admin-only call
-(`update_delay`, `grant_role`, `revoke_role`, `transfer_admin_role`, `renounce_admin`) was
-authorized by a payload of exactly one descriptor `m`, and the operation
+(`update_delay`, `set_role_admin`, `transfer_admin_role`, `renounce_admin`) was authorized by a
+payload of exactly one descriptor `m`, and the operation
 `(self, that function, exactly those arguments, m.pred, m.salt)` was Ready before the call and is
 Done after it (executor conditions as in `Consumed`). Whatever payload is attached — none, empty,
 short, long, mismatched — nothing else gets the call through. -/
@@ -88,28 +91,14 @@ theorem admin_call_consumes_ready_op {c c' : CState} {auth : List AuthTok} {sig 
     {x : Entry} {fn : Nat} {args : List Nat} (hself : c.admin = some c.self)
     (hx : x.adminCall = some (fn, args)) (h : applyE c auth sig x = .ok c') :
     ∃ m, sig = some [m] ∧ Consumed c c' auth fn args m := by
-  -- the two ways the controller's own `require_auth` is reached
   have viaAdmin : ∀ {c1 : CState}, enforceAdminAuth checkAuth c auth sig fn args = .ok c1 →
-      Frame c c1 ∧ ∃ m, sig = some [m] ∧ Consumed c c1 auth fn args m := by
+      ∃ m, sig = some [m] ∧ Consumed c c1 auth fn args m := by
     intro c1 h1
-    unfold enforceAdminAuth at h1
-    rw [hself] at h1
-    rcases requireAuth_ok h1 with ⟨_, metas, hs, hc⟩ | ⟨hne, _, _⟩
-    · obtain ⟨fr, m, hm, hcons⟩ := self_auth_consumes hc
-      exact ⟨fr, m, by rw [hs, hm], hcons⟩
+    obtain ⟨a, ha, h2⟩ := admin_step h1
+    rw [hself] at ha; injection ha with ha; subst ha
+    rcases (auth_step h2).2 with ⟨_, m, hm, hcons⟩ | ⟨hne, _, _⟩
+    · exact ⟨m, hm, hcons⟩
     · exact absurd rfl hne
-  have viaCaller : ∀ {c1 : CState} {caller : Nat},
-      requireAuth checkAuth c auth sig caller fn args = .ok c1 → ensureAdmin c1 caller = .ok () →
-      Frame c c1 ∧ ∃ m, sig = some [m] ∧ Consumed c c1 auth fn args m := by
-    intro c1 caller h1 h2
-    rcases requireAuth_ok h1 with ⟨_, metas, hs, hc⟩ | ⟨hne, _, rfl⟩
-    · obtain ⟨fr, m, hm, hcons⟩ := self_auth_consumes hc
-      exact ⟨fr, m, by rw [hs, hm], hcons⟩
-    · unfold ensureAdmin at h2
-      rw [hself] at h2
-      split at h2
-      · rename_i he; injection he with he; exact absurd he.symm hne
-      · cases h2
   cases x with
   | updateDelay d =>
     simp only [Entry.adminCall, Option.some.injEq, Prod.mk.injEq] at hx
@@ -119,40 +108,18 @@ theorem admin_call_consumes_ready_op {c c' : CState} {auth : List AuthTok} {sig 
     | error e => rw [h1] at h; cases h
     | ok c1 =>
       rw [h1] at h; injection h with h; subst h
-      obtain ⟨_, m, hm, hcons⟩ := viaAdmin h1
+      obtain ⟨m, hm, hcons⟩ := viaAdmin h1
       exact ⟨m, hm, hcons.congr rfl rfl⟩
-  | grantRole a r k =>
+  | setRoleAdmin r ar =>
     simp only [Entry.adminCall, Option.some.injEq, Prod.mk.injEq] at hx
     obtain ⟨rfl, rfl⟩ := hx
-    simp only [applyE, applyW, grantRoleW] at h
-    cases h1 : requireAuth checkAuth c auth sig k FN_GRANT_ROLE [vAddr a, vSym r, vAddr k] with
+    simp only [applyE, applyW, setRoleAdminW] at h
+    cases h1 : enforceAdminAuth checkAuth c auth sig FN_SET_ROLE_ADMIN [vSym r, vSym ar] with
     | error e => rw [h1] at h; cases h
     | ok c1 =>
-      rw [h1] at h; simp only at h
-      cases h2 : ensureAdmin c1 k with
-      | error e => rw [h2] at h; cases h
-      | ok u =>
-        rw [h2] at h; simp only at h
-        obtain ⟨_, m, hm, hcons⟩ := viaCaller h1 (by cases u; exact h2)
-        split at h
-        · injection h with h; subst h; exact ⟨m, hm, hcons⟩
-        · injection h with h; subst h; exact ⟨m, hm, hcons.congr rfl rfl⟩
-  | revokeRole a r k =>
-    simp only [Entry.adminCall, Option.some.injEq, Prod.mk.injEq] at hx
-    obtain ⟨rfl, rfl⟩ := hx
-    simp only [applyE, applyW, revokeRoleW] at h
-    cases h1 : requireAuth checkAuth c auth sig k FN_REVOKE_ROLE [vAddr a, vSym r, vAddr k] with
-    | error e => rw [h1] at h; cases h
-    | ok c1 =>
-      rw [h1] at h; simp only at h
-      cases h2 : ensureAdmin c1 k with
-      | error e => rw [h2] at h; cases h
-      | ok u =>
-        rw [h2] at h; simp only at h
-        obtain ⟨_, m, hm, hcons⟩ := viaCaller h1 (by cases u; exact h2)
-        split at h
-        · cases h
-        · injection h with h; subst h; exact ⟨m, hm, hcons.congr rfl rfl⟩
+      rw [h1] at h; injection h with h; subst h
+      obtain ⟨m, hm, hcons⟩ := viaAdmin h1
+      exact ⟨m, hm, hcons.congr rfl rfl⟩
   | transferAdmin a lu =>
     simp only [Entry.adminCall, Option.some.injEq, Prod.mk.injEq] at hx
     obtain ⟨rfl, rfl⟩ := hx
@@ -161,20 +128,9 @@ theorem admin_call_consumes_ready_op {c c' : CState} {auth : List AuthTok} {sig 
     | error e => rw [h1] at h; cases h
     | ok c1 =>
       rw [h1] at h; simp only at h
-      obtain ⟨_, m, hm, hcons⟩ := viaAdmin h1
-      refine ⟨m, hm, ?_⟩
-      unfold transferRole at h
-      split at h
-      · cases hp : livePending c1 with
-        | none => rw [hp] at h; cases h
-        | some p =>
-          rw [hp] at h; simp only at h
-          split at h
-          · cases h
-          · injection h with h; subst h; exact hcons.congr rfl rfl
-      · split at h
-        · cases h
-        · injection h with h; subst h; exact hcons.congr rfl rfl
+      obtain ⟨t, _, rfl⟩ := withAdm_ok h
+      obtain ⟨m, hm, hcons⟩ := viaAdmin h1
+      exact ⟨m, hm, hcons.congr rfl rfl⟩
   | renounceAdmin =>
     simp only [Entry.adminCall, Option.some.injEq, Prod.mk.injEq] at hx
     obtain ⟨rfl, rfl⟩ := hx
@@ -182,104 +138,307 @@ theorem admin_call_consumes_ready_op {c c' : CState} {auth : List AuthTok} {sig 
     cases h1 : enforceAdminAuth checkAuth c auth sig FN_RENOUNCE_ADMIN [] with
     | error e => rw [h1] at h; cases h
     | ok c1 =>
-      rw [h1] at h; simp only at h
-      obtain ⟨_, m, hm, hcons⟩ := viaAdmin h1
-      split at h
-      · cases h
-      · injection h with h; subst h; exact ⟨m, hm, hcons.congr rfl rfl⟩
+      rw [h1] at h; simp only [dropAdmin] at h
+      cases h2 : OZ.RoleTransfer.refuseIfPending c1.ac.adm with
+      | error e => rw [h2] at h; cases h
+      | ok u =>
+        rw [h2] at h; injection h with h; subst h
+        obtain ⟨m, hm, hcons⟩ := viaAdmin h1
+        exact ⟨m, hm, hcons.congr rfl rfl⟩
   | scheduleOp op d p => simp [Entry.adminCall] at hx
   | cancelOp id k => simp [Entry.adminCall] at hx
   | executeOp op ex ok => simp [Entry.adminCall] at hx
+  | grantRole a r k => simp [Entry.adminCall] at hx
+  | revokeRole a r k => simp [Entry.adminCall] at hx
+  | renounceRole r k => simp [Entry.adminCall] at hx
   | acceptAdmin => simp [Entry.adminCall] at hx
   | checkAuth metas ctxs => simp [Entry.adminCall] at hx
   | advance n => simp [Entry.adminCall] at hx
 
-/-- Every change of the minimum delay, of role membership, of the pending admin or of the admin of
-a self-administered controller is the effect of an admin-only call that consumed a ready operation
-for exactly that call — or, for the admin alone, of `accept_admin_transfer` by the live pending
-admin (who was installed as pending by a timelocked `transfer_admin_role`) with its authorization. -/
+/-- `grant_role` / `revoke_role` / `renounce_role` are authorized by the caller named in the
+arguments: if that is the controller itself, exactly one descriptor and the operation for exactly
+that call was consumed; otherwise that account signed the call (and `__check_auth` did not run:
+the timelock state is untouched). Moreover a grant / revoke was permitted: the caller is the admin
+or holds the admin role of the role concerned. -/
+theorem caller_call_authorized {c c' : CState} {auth : List AuthTok} {sig : Option (List Meta)}
+    {x : Entry} {k fn : Nat} {args : List Nat} (hx : x.callerCall = some (k, fn, args))
+    (h : applyE c auth sig x = .ok c') :
+    ((k = c.self ∧ ∃ m, sig = some [m] ∧ Consumed c c' auth fn args m) ∨
+     (k ≠ c.self ∧ AuthTok.call k ∈ auth ∧ c'.tl = c.tl)) ∧
+    (∀ a r, (x = .grantRole a r k ∨ x = .revokeRole a r k) →
+      OZ.Access.isAdmin c.ac k = true ∨ OZ.Access.isAdminRole c.ac r k = true) := by
+  have fin : ∀ {c1 : CState}, requireAuth checkAuth c auth sig k fn args = .ok c1 →
+      c'.tl = c1.tl →
+      ((k = c.self ∧ ∃ m, sig = some [m] ∧ Consumed c c' auth fn args m) ∨
+       (k ≠ c.self ∧ AuthTok.call k ∈ auth ∧ c'.tl = c.tl)) := by
+    intro c1 h1 htl
+    rcases (auth_step h1).2 with ⟨hk, m, hm, hcons⟩ | ⟨hne, hin, rfl⟩
+    · exact Or.inl ⟨hk, m, hm, hcons.congr (by rw [htl]) (by rw [htl])⟩
+    · exact Or.inr ⟨hne, hin, htl⟩
+  have perm : ∀ {c1 : CState} {r : Nat} {u : Unit}, Frame c c1 →
+      OZ.Access.ensureIfAdminOrAdminRole c1.ac r k = .ok u →
+      OZ.Access.isAdmin c.ac k = true ∨ OZ.Access.isAdminRole c.ac r k = true := by
+    intro c1 r u fr he
+    rw [fr.ac] at he
+    unfold OZ.Access.ensureIfAdminOrAdminRole at he
+    have := OZ.Access.require_ok he
+    simpa using this
+  cases x with
+  | grantRole a r k' =>
+    simp only [Entry.callerCall, Option.some.injEq, Prod.mk.injEq] at hx
+    obtain ⟨rfl, rfl, rfl⟩ := hx
+    simp only [applyE, applyW, grantRoleW] at h
+    cases h1 : requireAuth checkAuth c auth sig k' FN_GRANT_ROLE [vAddr a, vSym r, vAddr k'] with
+    | error e => rw [h1] at h; cases h
+    | ok c1 =>
+      rw [h1] at h; simp only [guardedRoleChange] at h
+      cases h2 : OZ.Access.ensureIfAdminOrAdminRole c1.ac r k' with
+      | error e => rw [h2] at h; cases h
+      | ok u =>
+        rw [h2] at h; simp only at h
+        obtain ⟨a', _, rfl⟩ := withAc_ok h
+        refine ⟨fin h1 rfl, ?_⟩
+        intro a0 r0 hx0
+        rcases hx0 with e | e
+        · injection e with _ e2 _; subst e2; exact perm (auth_step h1).1 h2
+        · cases e
+  | revokeRole a r k' =>
+    simp only [Entry.callerCall, Option.some.injEq, Prod.mk.injEq] at hx
+    obtain ⟨rfl, rfl, rfl⟩ := hx
+    simp only [applyE, applyW, revokeRoleW] at h
+    cases h1 : requireAuth checkAuth c auth sig k' FN_REVOKE_ROLE [vAddr a, vSym r, vAddr k'] with
+    | error e => rw [h1] at h; cases h
+    | ok c1 =>
+      rw [h1] at h; simp only [guardedRoleChange] at h
+      cases h2 : OZ.Access.ensureIfAdminOrAdminRole c1.ac r k' with
+      | error e => rw [h2] at h; cases h
+      | ok u =>
+        rw [h2] at h; simp only at h
+        obtain ⟨a', _, rfl⟩ := withAc_ok h
+        refine ⟨fin h1 rfl, ?_⟩
+        intro a0 r0 hx0
+        rcases hx0 with e | e
+        · cases e
+        · injection e with _ e2 _; subst e2; exact perm (auth_step h1).1 h2
+  | renounceRole r k' =>
+    simp only [Entry.callerCall, Option.some.injEq, Prod.mk.injEq] at hx
+    obtain ⟨rfl, rfl, rfl⟩ := hx
+    simp only [applyE, applyW, renounceRoleW] at h
+    cases h1 : requireAuth checkAuth c auth sig k' FN_RENOUNCE_ROLE [vSym r, vAddr k'] with
+    | error e => rw [h1] at h; cases h
+    | ok c1 =>
+      rw [h1] at h; simp only at h
+      obtain ⟨a', _, rfl⟩ := withAc_ok h
+      refine ⟨fin h1 rfl, ?_⟩
+      intro a0 r0 hx0
+      rcases hx0 with e | e <;> cases e
+  | scheduleOp op d p => simp [Entry.callerCall] at hx
+  | cancelOp id k' => simp [Entry.callerCall] at hx
+  | executeOp op ex ok => simp [Entry.callerCall] at hx
+  | updateDelay d => simp [Entry.callerCall] at hx
+  | setRoleAdmin r ar => simp [Entry.callerCall] at hx
+  | transferAdmin a lu => simp [Entry.callerCall] at hx
+  | acceptAdmin => simp [Entry.callerCall] at hx
+  | renounceAdmin => simp [Entry.callerCall] at hx
+  | checkAuth metas ctxs => simp [Entry.callerCall] at hx
+  | advance n => simp [Entry.callerCall] at hx
+
+/-- exact effect of the three membership-changing entry points on the access-control state (in a
+state satisfying C06's invariant): one (account, role) pair is switched on / off, role admins and
+the admin machine are untouched; the timelock part is what `__check_auth` left -/
+theorem membership_effect {c c' : CState} {auth : List AuthTok} {sig : Option (List Meta)}
+    (hinv : OZ.Access.Inv c.ac) :
+    (∀ a r k, applyE c auth sig (.grantRole a r k) = .ok c' →
+      OZ.Access.memb c'.ac = upd2 (OZ.Access.memb c.ac) a r true ∧ OZ.Access.SameRest c.ac c'.ac ∧
+        c'.tl.minDelay = c.tl.minDelay) ∧
+    (∀ a r k, applyE c auth sig (.revokeRole a r k) = .ok c' →
+      OZ.Access.memb c'.ac = upd2 (OZ.Access.memb c.ac) a r false ∧ OZ.Access.memb c.ac a r = true ∧
+        OZ.Access.SameRest c.ac c'.ac ∧ c'.tl.minDelay = c.tl.minDelay) ∧
+    (∀ r k, applyE c auth sig (.renounceRole r k) = .ok c' →
+      OZ.Access.memb c'.ac = upd2 (OZ.Access.memb c.ac) k r false ∧ OZ.Access.memb c.ac k r = true ∧
+        OZ.Access.SameRest c.ac c'.ac ∧ c'.tl.minDelay = c.tl.minDelay) := by
+  refine ⟨?_, ?_, ?_⟩
+  · intro a r k h
+    simp only [applyE, applyW, grantRoleW] at h
+    cases h1 : requireAuth checkAuth c auth sig k FN_GRANT_ROLE [vAddr a, vSym r, vAddr k] with
+    | error e => rw [h1] at h; cases h
+    | ok c1 =>
+      rw [h1] at h; simp only [guardedRoleChange] at h
+      cases h2 : OZ.Access.ensureIfAdminOrAdminRole c1.ac r k with
+      | error e => rw [h2] at h; cases h
+      | ok u =>
+        rw [h2] at h; simp only at h
+        obtain ⟨a', ha, rfl⟩ := withAc_ok h
+        have fr := (auth_step h1).1
+        rw [fr.ac] at ha
+        obtain ⟨_, hm, hr⟩ := OZ.Access.grantRoleNoAuth_effect hinv ha
+        exact ⟨hm, hr, fr.minDelay⟩
+  · intro a r k h
+    simp only [applyE, applyW, revokeRoleW] at h
+    cases h1 : requireAuth checkAuth c auth sig k FN_REVOKE_ROLE [vAddr a, vSym r, vAddr k] with
+    | error e => rw [h1] at h; cases h
+    | ok c1 =>
+      rw [h1] at h; simp only [guardedRoleChange] at h
+      cases h2 : OZ.Access.ensureIfAdminOrAdminRole c1.ac r k with
+      | error e => rw [h2] at h; cases h
+      | ok u =>
+        rw [h2] at h; simp only at h
+        obtain ⟨a', ha, rfl⟩ := withAc_ok h
+        have fr := (auth_step h1).1
+        rw [fr.ac] at ha
+        obtain ⟨_, hm, hb, hr⟩ := OZ.Access.revokeRoleNoAuth_effect hinv ha
+        exact ⟨hm, hb, hr, fr.minDelay⟩
+  · intro r k h
+    simp only [applyE, applyW, renounceRoleW] at h
+    cases h1 : requireAuth checkAuth c auth sig k FN_RENOUNCE_ROLE [vSym r, vAddr k] with
+    | error e => rw [h1] at h; cases h
+    | ok c1 =>
+      rw [h1] at h; simp only at h
+      obtain ⟨a', ha, rfl⟩ := withAc_ok h
+      have fr := (auth_step h1).1
+      rw [fr.ac] at ha
+      obtain ⟨_, hm, hb, hr⟩ := OZ.Access.revokeRoleNoAuth_effect hinv ha
+      exact ⟨hm, hb, hr, fr.minDelay⟩
+
+/-- **Every change of the governance state of a self-administered controller has one of four
+causes.** If an accepted invocation changes the minimum delay, role membership, a role's admin
+role, the admin or the pending admin (`¬ SameGov`), then
+* (A) the controller's own `require_auth` was passed: the call is an admin-only entry point
+  (`update_delay`, `set_role_admin`, `transfer_admin_role`, `renounce_admin`) or a `grant_role` /
+  `revoke_role` / `renounce_role` whose caller is the controller, the payload was exactly one
+  descriptor and the Ready operation for exactly that function and those arguments was consumed; or
+* (B) it is a `grant_role` / `revoke_role` of role `r` by an ordinary account `k` that holds the
+  admin role of `r` (`set_role_admin` — itself an admin-only, timelocked call — made it so) and
+  signed the call; or
+* (C) it is a `renounce_role` by the holder `k` itself, who signed the call; or
+* (D) it is `accept_admin_transfer` by the live pending admin (installed by a timelocked
+  `transfer_admin_role`), who signed the call.
+In (B)–(D) `__check_auth` did not run (`c'.tl = c.tl`). -/
 theorem admin_effect_requires_ready_op {c c' : CState} {auth : List AuthTok} {sig : Option (List Meta)}
     {x : Entry} (hself : c.admin = some c.self) (h : applyE c auth sig x = .ok c')
-    (heff : c'.tl.minDelay ≠ c.tl.minDelay ∨ c'.roles ≠ c.roles ∨ c'.pending ≠ c.pending ∨ c'.admin ≠ c.admin) :
-    (∃ fn args m, x.adminCall = some (fn, args) ∧ sig = some [m] ∧ Consumed c c' auth fn args m) ∨
-    (x = .acceptAdmin ∧ ∃ p, livePending c = some p ∧ AuthTok.call p ∈ auth ∧ c'.admin = some p) := by
+    (heff : ¬ SameGov c c') :
+    (∃ fn args m, (x.adminCall = some (fn, args) ∨ x.callerCall = some (c.self, fn, args)) ∧
+        sig = some [m] ∧ Consumed c c' auth fn args m) ∨
+    (∃ a r k, (x = .grantRole a r k ∨ x = .revokeRole a r k) ∧ k ≠ c.self ∧ AuthTok.call k ∈ auth ∧
+        OZ.Access.isAdminRole c.ac r k = true ∧ c'.tl = c.tl) ∨
+    (∃ r k, x = .renounceRole r k ∧ k ≠ c.self ∧ AuthTok.call k ∈ auth ∧ c'.tl = c.tl) ∨
+    (x = .acceptAdmin ∧ ∃ p, Temp.get? c.ac.adm.pending c.ac.adm.now = some p ∧ p ≠ c.self ∧
+        AuthTok.call p ∈ auth ∧ c'.admin = some p ∧ c'.tl = c.tl) := by
   cases hx : x.adminCall with
   | some fa =>
     obtain ⟨fn, args⟩ := fa
     obtain ⟨m, hm, hcons⟩ := admin_call_consumes_ready_op hself hx h
-    exact Or.inl ⟨fn, args, m, rfl, hm, hcons⟩
+    exact Or.inl ⟨fn, args, m, Or.inl rfl, hm, hcons⟩
   | none =>
-    cases x with
-    | updateDelay d => simp [Entry.adminCall] at hx
-    | grantRole a r k => simp [Entry.adminCall] at hx
-    | revokeRole a r k => simp [Entry.adminCall] at hx
-    | transferAdmin a lu => simp [Entry.adminCall] at hx
-    | renounceAdmin => simp [Entry.adminCall] at hx
-    | scheduleOp op d p =>
-      exfalso
-      simp only [applyE, applyW, scheduleOp] at h
-      split at h
-      · cases h
-      · cases h1 : requireAuthPlain c auth p with
+    cases hy : x.callerCall with
+    | some kfa =>
+      obtain ⟨k, fn, args⟩ := kfa
+      obtain ⟨hauth, hperm⟩ := caller_call_authorized hy h
+      rcases hauth with ⟨hk, m, hm, hcons⟩ | ⟨hne, hin, htl⟩
+      · subst hk
+        exact Or.inl ⟨fn, args, m, Or.inr rfl, hm, hcons⟩
+      · have notAdmin : OZ.Access.isAdmin c.ac k = false := by
+          unfold OZ.Access.isAdmin
+          have : OZ.Access.getAdmin c.ac = some c.self := hself
+          rw [this]
+          simp only [beq_eq_false_iff_ne, ne_eq]
+          exact hne
+        cases x with
+        | grantRole a r k' =>
+          simp only [Entry.callerCall, Option.some.injEq, Prod.mk.injEq] at hy
+          obtain ⟨rfl, _, _⟩ := hy
+          rcases hperm a r (Or.inl rfl) with hp | hp
+          · rw [notAdmin] at hp; cases hp
+          · exact Or.inr (Or.inl ⟨a, r, k', Or.inl rfl, hne, hin, hp, htl⟩)
+        | revokeRole a r k' =>
+          simp only [Entry.callerCall, Option.some.injEq, Prod.mk.injEq] at hy
+          obtain ⟨rfl, _, _⟩ := hy
+          rcases hperm a r (Or.inr rfl) with hp | hp
+          · rw [notAdmin] at hp; cases hp
+          · exact Or.inr (Or.inl ⟨a, r, k', Or.inr rfl, hne, hin, hp, htl⟩)
+        | renounceRole r k' =>
+          simp only [Entry.callerCall, Option.some.injEq, Prod.mk.injEq] at hy
+          obtain ⟨rfl, _, _⟩ := hy
+          exact Or.inr (Or.inr (Or.inl ⟨r, k', rfl, hne, hin, htl⟩))
+        | scheduleOp op d p => simp [Entry.callerCall] at hy
+        | cancelOp id k' => simp [Entry.callerCall] at hy
+        | executeOp op ex ok => simp [Entry.callerCall] at hy
+        | updateDelay d => simp [Entry.callerCall] at hy
+        | setRoleAdmin r ar => simp [Entry.callerCall] at hy
+        | transferAdmin a lu => simp [Entry.callerCall] at hy
+        | acceptAdmin => simp [Entry.callerCall] at hy
+        | renounceAdmin => simp [Entry.callerCall] at hy
+        | checkAuth metas ctxs => simp [Entry.callerCall] at hy
+        | advance n => simp [Entry.callerCall] at hy
+    | none =>
+      cases x with
+      | updateDelay d => simp [Entry.adminCall] at hx
+      | setRoleAdmin r ar => simp [Entry.adminCall] at hx
+      | transferAdmin a lu => simp [Entry.adminCall] at hx
+      | renounceAdmin => simp [Entry.adminCall] at hx
+      | grantRole a r k => simp [Entry.callerCall] at hy
+      | revokeRole a r k => simp [Entry.callerCall] at hy
+      | renounceRole r k => simp [Entry.callerCall] at hy
+      | acceptAdmin =>
+        right; right; right
+        refine ⟨rfl, ?_⟩
+        simp only [applyE, applyW, acceptAdmin] at h
+        obtain ⟨t, ht, rfl⟩ := withAdm_ok h
+        obtain ⟨p, hp, hin, hh, _, _, _⟩ := OZ.RoleTransfer.accept_ok (f := .admin) ht
+        obtain ⟨hne, hcall⟩ := mem_plainAuth.mp hin
+        exact ⟨p, hp, hne, hcall, hh, rfl⟩
+      | scheduleOp op d p =>
+        exfalso; apply heff
+        obtain ⟨c1, _, _, _, hd⟩ := applyE_decomp h
+        simp only [Entry.tlOp] at hd
+        obtain ⟨rfl, hs⟩ := hd
+        simp only [applyE, applyW, scheduleOp] at h
+        split at h
+        · cases h
+        · cases h1 : requireAuthPlain c1 auth p with
+          | error e => rw [h1] at h; cases h
+          | ok u =>
+            rw [h1] at h; simp only at h
+            obtain ⟨tl', _, rfl⟩ := liftTl_ok h
+            exact ⟨apply_minDelay_same hs (by intro d' e; cases e), rfl, rfl, rfl, rfl⟩
+      | cancelOp id k =>
+        exfalso; apply heff
+        obtain ⟨c1, _, _, _, hd⟩ := applyE_decomp h
+        simp only [Entry.tlOp] at hd
+        obtain ⟨rfl, hs⟩ := hd
+        simp only [applyE, applyW, cancelOp] at h
+        split at h
+        · cases h
+        · cases h1 : requireAuthPlain c1 auth k with
+          | error e => rw [h1] at h; cases h
+          | ok u =>
+            rw [h1] at h; simp only at h
+            obtain ⟨tl', _, rfl⟩ := liftTl_ok h
+            exact ⟨apply_minDelay_same hs (by intro d' e; cases e), rfl, rfl, rfl, rfl⟩
+      | executeOp op ex ok =>
+        exfalso; apply heff
+        obtain ⟨c1, _, _, _, hd⟩ := applyE_decomp h
+        simp only [Entry.tlOp] at hd
+        obtain ⟨rfl, hs⟩ := hd
+        simp only [applyE, applyW, executeOp] at h
+        cases h1 : executorGate c1 auth ex with
         | error e => rw [h1] at h; cases h
         | ok u =>
           rw [h1] at h; simp only at h
-          obtain ⟨tl', hs, rfl⟩ := liftTl_ok h
-          obtain ⟨_, _, _, _, rfl⟩ := schedule_ok hs
-          rcases heff with e | e | e | e <;> exact e rfl
-    | cancelOp id k =>
-      exfalso
-      simp only [applyE, applyW, cancelOp] at h
-      split at h
-      · cases h
-      · cases h1 : requireAuthPlain c auth k with
+          obtain ⟨tl', _, rfl⟩ := liftTl_ok h
+          exact ⟨apply_minDelay_same hs (by intro d' e; cases e), rfl, rfl, rfl, rfl⟩
+      | checkAuth metas ctxs =>
+        exfalso; apply heff
+        exact (check_auth_frame (show checkAuth c auth metas ctxs = .ok c' from h)).sameGov
+      | advance n =>
+        exfalso; apply heff
+        simp only [applyE, applyW, advanceC] at h
+        cases h1 : advance c.tl n with
         | error e => rw [h1] at h; cases h
-        | ok u =>
-          rw [h1] at h; simp only at h
-          obtain ⟨tl', hs, rfl⟩ := liftTl_ok h
-          obtain ⟨_, rfl⟩ := cancel_ok hs
-          rcases heff with e | e | e | e <;> exact e rfl
-    | executeOp op ex ok =>
-      exfalso
-      simp only [applyE, applyW, executeOp] at h
-      cases h1 : executorGate c auth ex with
-      | error e => rw [h1] at h; cases h
-      | ok u =>
-        rw [h1] at h; simp only at h
-        obtain ⟨tl', hs, rfl⟩ := liftTl_ok h
-        obtain ⟨s1, hs1, _, rfl⟩ := execute_ok hs
-        obtain ⟨_, _, _, rfl⟩ := setExecute_ok hs1
-        rcases heff with e | e | e | e <;> exact e rfl
-    | acceptAdmin =>
-      right
-      refine ⟨rfl, ?_⟩
-      simp only [applyE, applyW, acceptAdmin] at h
-      rw [hself] at h
-      simp only at h
-      cases hp : livePending c with
-      | none => rw [hp] at h; cases h
-      | some p =>
-        rw [hp] at h; simp only at h
-        cases h1 : requireAuthPlain c auth p with
-        | error e => rw [h1] at h; cases h
-        | ok u =>
-          rw [h1] at h; simp only at h
-          injection h with h; subst h
-          exact ⟨p, rfl, (requireAuthPlain_ok (by cases u; exact h1)).2, rfl⟩
-    | checkAuth metas ctxs =>
-      exfalso
-      have fr := check_auth_frame (show checkAuth c auth metas ctxs = .ok c' from h)
-      rcases heff with e | e | e | e
-      · exact e fr.minDelay
-      · exact e fr.roles
-      · exact e fr.pending
-      · exact e fr.admin
-    | advance n =>
-      exfalso
-      simp only [applyE, applyW] at h
-      obtain ⟨tl', hs, rfl⟩ := liftTl_ok h
-      obtain ⟨_, rfl⟩ := advance_ok hs
-      rcases heff with e | e | e | e <;> exact e rfl
+        | ok tl' =>
+          rw [h1] at h; injection h with h; subst h
+          obtain ⟨_, rfl⟩ := advance_ok h1
+          exact ⟨rfl, rfl, rfl, rfl, rfl⟩
 
 /-- the consumed operation really went through the timelock: in a reachable state it was scheduled
 (an accepted `schedule_operation` of exactly this id is in the log) with a delay not below the
@@ -290,140 +449,52 @@ theorem consumed_op_was_scheduled {c c' : CState} {auth : List AuthTok} {fn : Na
       (∀ e ∈ newer, e.id ≠ (opOf c.self fn args m).id) ∧ md ≤ d ∧ elapsed l d c.tl.now :=
   ready_was_scheduled hi h.1
 
-/-- the timelock invariant (C08) holds in every state of the controller reachable at ledgers ≥ 2 -/
+/-- the timelock invariant (C08) and the access-control invariant (C06) hold in every state of the
+controller reachable at ledgers ≥ 2 -/
 theorem controller_inv {c c' : CState} {auth : List AuthTok} {sig : Option (List Meta)} {x : Entry}
-    (hi : Inv c.tl) (h : applyE c auth sig x = .ok c') : Inv c'.tl := by
-  have viaReq : ∀ {c1 : CState} {who fn : Nat} {args : List Nat},
-      requireAuth checkAuth c auth sig who fn args = .ok c1 → Inv c1.tl := by
-    intro c1 who fn args h1
-    rcases requireAuth_ok h1 with ⟨_, metas, _, hc⟩ | ⟨_, _, rfl⟩
-    · exact checkPairs_inv hi (checkAuth_ok hc).2
-    · exact hi
-  have viaAdmin : ∀ {c1 : CState} {fn : Nat} {args : List Nat},
-      enforceAdminAuth checkAuth c auth sig fn args = .ok c1 → Inv c1.tl := by
-    intro c1 fn args h1
-    unfold enforceAdminAuth at h1
-    cases ha : c.admin with
-    | none => rw [ha] at h1; cases h1
-    | some a => rw [ha] at h1; exact viaReq h1
-  have keep : ∀ {s s' : Timelock.State}, Inv s → s'.ledger = s.ledger → s'.now = s.now → s'.log = s.log → Inv s' := by
-    intro s s' hs h1 h2 h3
-    exact ⟨by rw [h2]; exact hs.nowLo, by rw [h2]; exact hs.nowHi,
-      fun id => by rw [h1, h2, h3]; exact hs.coh id, fun id => by rw [h1, h3]; exact hs.cnt id⟩
-  cases x with
-  | scheduleOp op d p =>
-    simp only [applyE, applyW, scheduleOp] at h
-    split at h
-    · cases h
-    · cases h1 : requireAuthPlain c auth p with
-      | error e => rw [h1] at h; cases h
-      | ok u =>
-        rw [h1] at h; simp only at h
-        obtain ⟨tl', hs, rfl⟩ := liftTl_ok h
-        exact schedule_inv hi hs
-  | cancelOp id k =>
-    simp only [applyE, applyW, cancelOp] at h
-    split at h
-    · cases h
-    · cases h1 : requireAuthPlain c auth k with
-      | error e => rw [h1] at h; cases h
-      | ok u =>
-        rw [h1] at h; simp only at h
-        obtain ⟨tl', hs, rfl⟩ := liftTl_ok h
-        exact cancel_inv hi hs
-  | executeOp op ex ok =>
-    simp only [applyE, applyW, executeOp] at h
-    cases h1 : executorGate c auth ex with
-    | error e => rw [h1] at h; cases h
-    | ok u =>
-      rw [h1] at h; simp only at h
-      obtain ⟨tl', hs, rfl⟩ := liftTl_ok h
-      exact apply_inv hi (x := .execute op ok) hs
-  | updateDelay d =>
-    simp only [applyE, applyW, updateDelayW] at h
-    cases h1 : enforceAdminAuth checkAuth c auth sig FN_UPDATE_DELAY [vU32 d] with
-    | error e => rw [h1] at h; cases h
-    | ok c1 =>
-      rw [h1] at h; injection h with h; subst h
-      exact keep (viaAdmin h1) rfl rfl rfl
-  | grantRole a r k =>
-    simp only [applyE, applyW, grantRoleW] at h
-    cases h1 : requireAuth checkAuth c auth sig k FN_GRANT_ROLE [vAddr a, vSym r, vAddr k] with
-    | error e => rw [h1] at h; cases h
-    | ok c1 =>
-      rw [h1] at h; simp only at h
-      cases h2 : ensureAdmin c1 k with
-      | error e => rw [h2] at h; cases h
-      | ok u =>
-        rw [h2] at h; simp only at h
-        split at h
-        · injection h with h; subst h; exact (viaReq h1 : Inv c1.tl)
-        · injection h with h; subst h; exact (viaReq h1 : Inv c1.tl)
-  | revokeRole a r k =>
-    simp only [applyE, applyW, revokeRoleW] at h
-    cases h1 : requireAuth checkAuth c auth sig k FN_REVOKE_ROLE [vAddr a, vSym r, vAddr k] with
-    | error e => rw [h1] at h; cases h
-    | ok c1 =>
-      rw [h1] at h; simp only at h
-      cases h2 : ensureAdmin c1 k with
-      | error e => rw [h2] at h; cases h
-      | ok u =>
-        rw [h2] at h; simp only at h
-        split at h
-        · cases h
-        · injection h with h; subst h; exact (viaReq h1 : Inv c1.tl)
-  | transferAdmin a lu =>
-    simp only [applyE, applyW, transferAdminW] at h
-    cases h1 : enforceAdminAuth checkAuth c auth sig FN_TRANSFER_ADMIN [vAddr a, vU32 lu] with
-    | error e => rw [h1] at h; cases h
-    | ok c1 =>
-      rw [h1] at h; simp only at h
-      unfold transferRole at h
-      split at h
-      · cases hp : livePending c1 with
-        | none => rw [hp] at h; cases h
-        | some p =>
-          rw [hp] at h; simp only at h
-          split at h
-          · cases h
-          · injection h with h; subst h; exact (viaAdmin h1 : Inv c1.tl)
-      · split at h
-        · cases h
-        · injection h with h; subst h; exact (viaAdmin h1 : Inv c1.tl)
-  | acceptAdmin =>
-    simp only [applyE, applyW, acceptAdmin] at h
-    cases ha : c.admin with
-    | none => rw [ha] at h; cases h
-    | some a =>
-      rw [ha] at h; simp only at h
-      cases hp : livePending c with
-      | none => rw [hp] at h; cases h
-      | some p =>
-        rw [hp] at h; simp only at h
-        cases h1 : requireAuthPlain c auth p with
-        | error e => rw [h1] at h; cases h
-        | ok u => rw [h1] at h; simp only at h; injection h with h; subst h; exact hi
-  | renounceAdmin =>
-    simp only [applyE, applyW, renounceAdminW] at h
-    cases h1 : enforceAdminAuth checkAuth c auth sig FN_RENOUNCE_ADMIN [] with
-    | error e => rw [h1] at h; cases h
-    | ok c1 =>
-      rw [h1] at h; simp only at h
-      split at h
-      · cases h
-      · injection h with h; subst h; exact (viaAdmin h1 : Inv c1.tl)
-  | checkAuth metas ctxs =>
-    exact checkPairs_inv hi (checkAuth_ok (show checkAuth c auth metas ctxs = .ok c' from h)).2
-  | advance n =>
-    simp only [applyE, applyW] at h
-    obtain ⟨tl', hs, rfl⟩ := liftTl_ok h
-    exact apply_inv hi (x := .advance n) hs
+    (hi : Inv c.tl) (ha : OZ.Access.Inv c.ac) (h : applyE c auth sig x = .ok c') :
+    Inv c'.tl ∧ OZ.Access.Inv c'.ac := by
+  obtain ⟨c1, hrel, _, hac, hd⟩ := applyE_decomp h
+  have hi1 := hrel.inv hi
+  have ha1 : OZ.Access.Inv c1.ac := by rw [hrel.frame.ac]; exact ha
+  refine ⟨?_, hac.inv ha1⟩
+  cases hy : x.tlOp with
+  | some y =>
+    rw [hy] at hd
+    obtain ⟨rfl, hs⟩ := hd
+    exact apply_inv hi hs
+  | none =>
+    rw [hy] at hd
+    rcases hd with e | ⟨d, _, e⟩
+    · rw [e]; exact hi1
+    · rw [e]; exact ⟨hi1.nowLo, hi1.nowHi, hi1.coh, hi1.cnt⟩
 
-/-- the constructor establishes the invariant at ledgers ≥ 2 -/
+/-- the constructor establishes both invariants at ledgers ≥ 2 -/
 theorem construct_inv {now maxTtl self minDelay : Nat} {ps es : List Nat} {admin : Option Nat}
-    (h2 : 2 ≤ now) (hm : now ≤ U32_MAX) : Inv (construct now maxTtl self minDelay ps es admin).tl := by
+    (h2 : 2 ≤ now) (hm : now ≤ U32_MAX) :
+    Inv (construct now maxTtl self minDelay ps es admin).tl ∧
+    OZ.Access.Inv (construct now maxTtl self minDelay ps es admin).ac := by
+  have keep : ∀ (s : AC) (a r k : Nat), OZ.Access.Inv s → OZ.Access.Inv (grantOrKeep s a r k) := by
+    intro s a r k hs
+    unfold grantOrKeep
+    cases hg : OZ.Access.grantRoleNoAuth s a r k with
+    | error e => exact hs
+    | ok s' => exact (OZ.Access.grantRoleNoAuth_effect hs hg).1
+  have fold1 : ∀ (l : List Nat) (k : Nat) (s : AC), OZ.Access.Inv s →
+      OZ.Access.Inv (l.foldl (fun s p => grantOrKeep (grantOrKeep s p PROPOSER k) p CANCELLER k) s) := by
+    intro l k
+    induction l with
+    | nil => intro s hs; exact hs
+    | cons p rest ih => intro s hs; exact ih _ (keep _ _ _ _ (keep _ _ _ _ hs))
+  have fold2 : ∀ (l : List Nat) (k : Nat) (s : AC), OZ.Access.Inv s →
+      OZ.Access.Inv (l.foldl (fun s x => grantOrKeep s x EXECUTOR k) s) := by
+    intro l k
+    induction l with
+    | nil => intro s hs; exact hs
+    | cons p rest ih => intro s hs; exact ih _ (keep _ _ _ _ hs)
   have := init_inv h2 hm
-  exact ⟨this.nowLo, this.nowHi, this.coh, this.cnt⟩
+  exact ⟨⟨this.nowLo, this.nowHi, this.coh, this.cnt⟩,
+    fold2 _ _ _ (fold1 _ _ _ (OZ.Access.init_inv _ _ _))⟩
 
 /-! ### roles and authorization of schedule / cancel / execute -/
 
@@ -461,7 +532,7 @@ theorem cancel_role_and_auth {c c' : CState} {auth : List AuthTok} {sig : Option
 account's authorization -/
 theorem execute_role_and_auth {c c' : CState} {auth : List AuthTok} {sig : Option (List Meta)}
     {op : Operation} {ex : Option Nat} {ok : Bool} (h : applyE c auth sig (.executeOp op ex ok) = .ok c') :
-    ((c.roles EXECUTOR).length ≠ 0 →
+    (c.executorCount ≠ 0 →
       ∃ e, ex = some e ∧ c.hasRole EXECUTOR e = true ∧ AuthTok.call e ∈ auth) ∧
     ∃ tl', execute c.tl op ok = .ok tl' ∧ c' = { c with tl := tl' } := by
   simp only [applyE, applyW, executeOp] at h
@@ -482,8 +553,8 @@ theorem execute_role_and_auth {c c' : CState} {auth : List AuthTok} {sig : Optio
       · rename_i hr
         exact ⟨e, rfl, by simpa using hr, (requireAuthPlain_ok (by cases u; exact h1)).2⟩
 
-/-- operations enter the timelock only through `schedule_op`: any other accepted entry point
-leaves the set of schedule records of the log unchanged -/
+/-- operations enter the timelock only through `schedule_op`: a schedule record that is new in the
+log was put there by `schedule_op`, called by a proposer who signed the call -/
 theorem schedule_only_by_proposer {c c' : CState} {auth : List AuthTok} {sig : Option (List Meta)}
     {x : Entry} (h : applyE c auth sig x = .ok c') (id : Id) (l d m : Nat)
     (hnew : Ev.sched id l d m ∈ c'.tl.log) (hold : Ev.sched id l d m ∉ c.tl.log) :
@@ -507,19 +578,11 @@ theorem schedule_only_by_proposer {c c' : CState} {auth : List AuthTok} {sig : O
         obtain ⟨_, _, _, rfl⟩ := setExecute_ok hs
         cases this with
         | tail _ h' => exact h'
-  have viaReq : ∀ {c1 : CState} {who fn : Nat} {args : List Nat},
-      requireAuth checkAuth c auth sig who fn args = .ok c1 → Ev.sched id l d m ∈ c1.tl.log → False := by
-    intro c1 who fn args h1 hin
-    rcases requireAuth_ok h1 with ⟨_, metas, _, hc⟩ | ⟨_, _, rfl⟩
-    · exact hold (viaPairs (checkAuth_ok hc).2 hin)
-    · exact hold hin
-  have viaAdmin : ∀ {c1 : CState} {fn : Nat} {args : List Nat},
-      enforceAdminAuth checkAuth c auth sig fn args = .ok c1 → Ev.sched id l d m ∈ c1.tl.log → False := by
-    intro c1 fn args h1 hin
-    unfold enforceAdminAuth at h1
-    cases ha : c.admin with
-    | none => rw [ha] at h1; cases h1
-    | some a => rw [ha] at h1; exact viaReq h1 hin
+  obtain ⟨c1, hrel, _, _, hd⟩ := applyE_decomp h
+  have hold1 : Ev.sched id l d m ∉ c1.tl.log := by
+    rcases hrel with rfl | ⟨metas, ctxs, hc⟩
+    · exact hold
+    · exact fun hin => hold (viaPairs (checkAuth_ok hc).2 hin)
   cases x with
   | scheduleOp op d' p =>
     obtain ⟨hr, ha, tl', hs, rfl⟩ := schedule_role_and_auth h
@@ -528,102 +591,87 @@ theorem schedule_only_by_proposer {c c' : CState} {auth : List AuthTok} {sig : O
     | head => exact ⟨op, p, rfl, rfl, hr, ha⟩
     | tail _ h' => exact absurd h' hold
   | cancelOp i k =>
-    obtain ⟨_, _, tl', hs, rfl⟩ := cancel_role_and_auth h
-    obtain ⟨_, rfl⟩ := cancel_ok hs
+    exfalso
+    simp only [Entry.tlOp] at hd
+    obtain ⟨rfl, hs⟩ := hd
+    obtain ⟨_, e⟩ := cancel_ok hs
+    rw [e] at hnew
     cases hnew with
-    | tail _ h' => exact absurd h' hold
+    | tail _ h' => exact hold h'
   | executeOp op ex ok =>
-    obtain ⟨_, tl', hs, rfl⟩ := execute_role_and_auth h
-    obtain ⟨s1, hs1, _, rfl⟩ := execute_ok hs
+    exfalso
+    simp only [Entry.tlOp] at hd
+    obtain ⟨rfl, hs⟩ := hd
+    obtain ⟨s1, hs1, _, e⟩ := execute_ok hs
     obtain ⟨_, _, _, rfl⟩ := setExecute_ok hs1
+    rw [e] at hnew
     cases hnew with
-    | tail _ h' => exact absurd h' hold
-  | updateDelay dd =>
-    exfalso
-    simp only [applyE, applyW, updateDelayW] at h
-    cases h1 : enforceAdminAuth checkAuth c auth sig FN_UPDATE_DELAY [vU32 dd] with
-    | error e => rw [h1] at h; cases h
-    | ok c1 => rw [h1] at h; injection h with h; subst h; exact viaAdmin h1 hnew
-  | grantRole a r k =>
-    exfalso
-    simp only [applyE, applyW, grantRoleW] at h
-    cases h1 : requireAuth checkAuth c auth sig k FN_GRANT_ROLE [vAddr a, vSym r, vAddr k] with
-    | error e => rw [h1] at h; cases h
-    | ok c1 =>
-      rw [h1] at h; simp only at h
-      cases h2 : ensureAdmin c1 k with
-      | error e => rw [h2] at h; cases h
-      | ok u =>
-        rw [h2] at h; simp only at h
-        split at h
-        · injection h with h; subst h; exact viaReq h1 hnew
-        · injection h with h; subst h; exact viaReq h1 hnew
-  | revokeRole a r k =>
-    exfalso
-    simp only [applyE, applyW, revokeRoleW] at h
-    cases h1 : requireAuth checkAuth c auth sig k FN_REVOKE_ROLE [vAddr a, vSym r, vAddr k] with
-    | error e => rw [h1] at h; cases h
-    | ok c1 =>
-      rw [h1] at h; simp only at h
-      cases h2 : ensureAdmin c1 k with
-      | error e => rw [h2] at h; cases h
-      | ok u =>
-        rw [h2] at h; simp only at h
-        split at h
-        · cases h
-        · injection h with h; subst h; exact viaReq h1 hnew
-  | transferAdmin a lu =>
-    exfalso
-    simp only [applyE, applyW, transferAdminW] at h
-    cases h1 : enforceAdminAuth checkAuth c auth sig FN_TRANSFER_ADMIN [vAddr a, vU32 lu] with
-    | error e => rw [h1] at h; cases h
-    | ok c1 =>
-      rw [h1] at h; simp only at h
-      unfold transferRole at h
-      split at h
-      · cases hp : livePending c1 with
-        | none => rw [hp] at h; cases h
-        | some p =>
-          rw [hp] at h; simp only at h
-          split at h
-          · cases h
-          · injection h with h; subst h; exact viaAdmin h1 hnew
-      · split at h
-        · cases h
-        · injection h with h; subst h; exact viaAdmin h1 hnew
-  | acceptAdmin =>
-    exfalso
-    simp only [applyE, applyW, acceptAdmin] at h
-    cases ha : c.admin with
-    | none => rw [ha] at h; cases h
-    | some a =>
-      rw [ha] at h; simp only at h
-      cases hp : livePending c with
-      | none => rw [hp] at h; cases h
-      | some p =>
-        rw [hp] at h; simp only at h
-        cases h1 : requireAuthPlain c auth p with
-        | error e => rw [h1] at h; cases h
-        | ok u => rw [h1] at h; simp only at h; injection h with h; subst h; exact hold hnew
-  | renounceAdmin =>
-    exfalso
-    simp only [applyE, applyW, renounceAdminW] at h
-    cases h1 : enforceAdminAuth checkAuth c auth sig FN_RENOUNCE_ADMIN [] with
-    | error e => rw [h1] at h; cases h
-    | ok c1 =>
-      rw [h1] at h; simp only at h
-      split at h
-      · cases h
-      · injection h with h; subst h; exact viaAdmin h1 hnew
-  | checkAuth metas ctxs =>
-    exfalso
-    exact hold (viaPairs (checkAuth_ok (show checkAuth c auth metas ctxs = .ok c' from h)).2 hnew)
+    | tail _ h' => exact hold h'
   | advance n =>
     exfalso
-    simp only [applyE, applyW] at h
-    obtain ⟨tl', hs, rfl⟩ := liftTl_ok h
-    obtain ⟨_, rfl⟩ := advance_ok hs
+    simp only [Entry.tlOp] at hd
+    obtain ⟨rfl, hs⟩ := hd
+    obtain ⟨_, e⟩ := advance_ok hs
+    rw [e] at hnew
     exact hold hnew
+  | updateDelay dd =>
+    exfalso
+    simp only [Entry.tlOp] at hd
+    rcases hd with e | ⟨_, _, e⟩ <;> (rw [e] at hnew; exact hold1 hnew)
+  | grantRole a r k =>
+    exfalso; simp only [Entry.tlOp] at hd
+    rcases hd with e | ⟨_, e0, _⟩
+    · rw [e] at hnew; exact hold1 hnew
+    · cases e0
+  | revokeRole a r k =>
+    exfalso; simp only [Entry.tlOp] at hd
+    rcases hd with e | ⟨_, e0, _⟩
+    · rw [e] at hnew; exact hold1 hnew
+    · cases e0
+  | renounceRole r k =>
+    exfalso; simp only [Entry.tlOp] at hd
+    rcases hd with e | ⟨_, e0, _⟩
+    · rw [e] at hnew; exact hold1 hnew
+    · cases e0
+  | setRoleAdmin r ar =>
+    exfalso; simp only [Entry.tlOp] at hd
+    rcases hd with e | ⟨_, e0, _⟩
+    · rw [e] at hnew; exact hold1 hnew
+    · cases e0
+  | transferAdmin a lu =>
+    exfalso; simp only [Entry.tlOp] at hd
+    rcases hd with e | ⟨_, e0, _⟩
+    · rw [e] at hnew; exact hold1 hnew
+    · cases e0
+  | acceptAdmin =>
+    exfalso; simp only [Entry.tlOp] at hd
+    rcases hd with e | ⟨_, e0, _⟩
+    · rw [e] at hnew; exact hold1 hnew
+    · cases e0
+  | renounceAdmin =>
+    exfalso; simp only [Entry.tlOp] at hd
+    rcases hd with e | ⟨_, e0, _⟩
+    · rw [e] at hnew; exact hold1 hnew
+    · cases e0
+  | checkAuth metas ctxs =>
+    exfalso; simp only [Entry.tlOp] at hd
+    rcases hd with e | ⟨_, e0, _⟩
+    · rw [e] at hnew; exact hold1 hnew
+    · cases e0
+
+/-- non-vacuity of case (B): once the admin role of PROPOSER is role 3 and account 4 holds role 3,
+account 4 grants PROPOSER to account 5 with its own signature and no payload; account 2 (no holder of
+role 3) cannot; and account 1 renounces its own proposer role (case (C)) -/
+example :
+    (applyE { (construct 100 200000 0 5 [1] [] none) with
+        ac := OZ.Access.setRoleAdminNoAuth (grantOrKeep (construct 100 200000 0 5 [1] [] none).ac 4 3 0) PROPOSER 3 }
+      [.call 4] none (.grantRole 5 PROPOSER 4)).toBool = true ∧
+    (applyE { (construct 100 200000 0 5 [1] [] none) with
+        ac := OZ.Access.setRoleAdminNoAuth (grantOrKeep (construct 100 200000 0 5 [1] [] none).ac 4 3 0) PROPOSER 3 }
+      [.call 2] none (.grantRole 5 PROPOSER 2)).toBool = false ∧
+    (applyE (construct 100 200000 0 5 [1] [] none) [.call 1] none (.renounceRole PROPOSER 1)).toBool = true ∧
+    (applyE (construct 100 200000 0 5 [1] [] none) [.call 2] none (.renounceRole PROPOSER 1)).toBool = false := by
+  decide
 
 /-! ### the defect of the unfixed code (regression documentation) -/
 
